@@ -40,7 +40,15 @@ type driverProc struct {
 }
 
 func startDriver(bin, mode, args string, extraEnv ...string) *driverProc {
+	return startDriverWrapped(nil, bin, mode, args, extraEnv...)
+}
+
+// startDriverWrapped runs the driver under a wrapper command (e.g. strace ...)
+func startDriverWrapped(wrap []string, bin, mode, args string, extraEnv ...string) *driverProc {
 	cmd := exec.Command(bin)
+	if len(wrap) > 0 {
+		cmd = exec.Command(wrap[0], append(append([]string{}, wrap[1:]...), bin)...)
+	}
 	cmd.Env = append(os.Environ(), "VERIF_DRIVER="+mode, "VERIF_ARGS="+args)
 	cmd.Env = append(cmd.Env, extraEnv...)
 	in, _ := cmd.StdinPipe()
